@@ -223,11 +223,14 @@ def run(rep: Report, prog: Program, tier: str) -> None:
     from .objhook import make_hook
     oh = make_hook(prog)
     evj = Evaluator(prog, prog.modules["jitterbuffer"], None, {}, oh)
-    size_sets = [(1, 1, 1, 1), (2, 2, 2, 2), (3, 1, 2, 1), (1, 3, 1, 2), (2, 1, 3, 3), (3, 3, 1, 1), (1, 2, 3, 1)]
+    size_sets = [(1, 1, 1, 1), (2, 2, 2, 2), (3, 1, 2, 1), (1, 3, 1, 2), (2, 1, 3, 3), (3, 3, 1, 1), (1, 2, 3, 1),
+                 (15, 1, 15, 1), (14, 2, 13, 3), (1, 15, 1, 14)]  # frames that (almost) fill the 16 slots
     if tier == "thorough":
         size_sets = [s + (1,) for s in itertools.product((1, 2, 3), repeat=4)]
     n_sched = 0
     for prefetch, sizes, start, swap in itertools.product((0, 1, 2, 3), size_sets, (0, 65530), (None, 1, 3)):
+        if max(sizes) > 8 and prefetch > 1:
+            continue  # a prefetch window of several near-capacity frames cannot fit into the 16 slots: the buffer has to drop, nothing to decide
         # packets of consecutive frames; an extra 1-packet frame at the end flushes the previous ones
         pkts = []
         seq = start
